@@ -418,6 +418,9 @@ func propC01(c *Check) {
 	ruleR01_2(c)
 	ruleR01_3(c)
 	ruleR01_4(c)
+	// iterators: within L0 the newer table precedes the older one in the merge (ties on identical
+	// key+version — a value-log GC write-back — must resolve to the newer copy)
+	ruleR12_3(c)
 }
 
 // ---- C02 ----
@@ -665,16 +668,26 @@ func ruleR02_4(c *Check) {
 		var callee types.Object
 		for _, s := range fn.Sites(selStore(fld)) {
 			ast.Inspect(s, func(n ast.Node) bool {
+				// the fingerprint function: func([]byte) uint64 applied in the statement itself or in the
+				// definition of a local the statement uses
+				isHash := func(e ast.Expr) types.Object {
+					if call, ok := unparen(e).(*ast.CallExpr); ok {
+						if o, isF := w.Callee(call).(*types.Func); isF && sigIs(o, []string{"[]byte"}, []string{"uint64"}) {
+							return o
+						}
+					}
+					return nil
+				}
 				switch x := n.(type) {
+				case *ast.CallExpr:
+					if o := isHash(x); o != nil && callee == nil {
+						callee = o
+					}
 				case *ast.Ident:
 					if v, ok := w.Use(x).(*types.Var); ok && !v.IsField() {
 						for _, d := range w.DefsOf(fn, v) {
-							if call, ok := unparen(d).(*ast.CallExpr); ok {
-								if o := w.Callee(call); o != nil {
-									if _, isF := o.(*types.Func); isF && callee == nil {
-										callee = o
-									}
-								}
+							if o := isHash(d); o != nil && callee == nil {
+								callee = o
 							}
 						}
 					}
